@@ -1,6 +1,10 @@
 """C15 (resize part) — the dynamically growing data segment: DynamicMemory / DynamicView of
 iceoryx2-cal/src/resizable_shared_memory/dynamic.rs against the Lean model Iox2.ResizeMem.
-Called from pC15.run(ctx) as `pC15resize.resize_part(ctx)` (after the driver and the harness are built)."""
+Called from pC15.run(ctx) as `pC15resize.resize_part(ctx)` (after the driver and the harness are built).
+Known findings of this part (fnmatch keys for known_findings.json, property C15):
+  resize.*:resize:oracle:grow:grow-alias          grow of a chunk of an older segment returns a bucket of the current segment
+  resize.*:resize:alloc-refused-with-ids-left     one bucket lost to alignment padding; with one chunk allocate() burns all ids and fails
+see notes/C15-resize-design.md."""
 import core
 
 
@@ -16,8 +20,10 @@ def classify(case, idx, impl_out, model_out):
 
 
 def segment_ids_oracle(case, idx, out):
-    """on the implementation's answers alone: an allocation of a non-static segment is only refused with the
-    documented error; offsets carry a segment id below 256"""
+    """on the implementation's answers alone (whatever the model says):
+    * offsets carry a segment id below 256, an allocation is only ever refused with OutOfMemory;
+    * one call of allocate / grow needs at most ONE new segment, so in a growing (non-static) segment an allocation with a
+      supported alignment can only be refused after at least 255 earlier allocate / grow calls"""
     op = case[idx][0].split(" ")
     if op[0] in ("alloc", "grow") and out.startswith("ok:"):
         seg = int(out.split(":")[1])
@@ -25,6 +31,10 @@ def segment_ids_oracle(case, idx, out):
             return "resize:segment-id-out-of-range"
     if op[0] == "alloc" and out.startswith("err:") and out != "err:oom":
         return "resize:undocumented-allocation-error"
+    if op[0] == "alloc" and out == "err:oom" and case[0][0].split(" ")[1] != "static" and int(op[3]) <= 4096:
+        calls = sum(1 for (o, _) in case[:idx] if o.split(" ")[0] in ("alloc", "grow"))
+        if calls < 255:
+            return "resize:alloc-refused-with-ids-left"
     return None
 
 
